@@ -973,15 +973,23 @@ class PGPMessage(Armorable, PGPObject):
         self._sessionkeys = []
 
     def __bytearray__(self):
+        pkts = [pkt for pkt in self]
+        for pkt in pkts[:-1]:
+            # a packet of indeterminate length (old format, length type 3) runs to the end of the data:
+            # it can only stay that way when nothing follows it
+            hdr = getattr(pkt, 'header', None)
+            if hdr is not None and hdr._lenfmt == 0 and hdr.llen == 0:
+                hdr.llen = 0 if hdr.length < (1 << 8) else 1 if hdr.length < (1 << 16) else 2
+
         if self.is_compressed:
             comp = CompressedData()
             comp.calg = self._compression
-            comp.packets = [pkt for pkt in self]
+            comp.packets = pkts
             comp.update_hlen()
             return comp.__bytearray__()
 
         _bytes = bytearray()
-        for pkt in self:
+        for pkt in pkts:
             _bytes += pkt.__bytearray__()
         return _bytes
 
